@@ -296,6 +296,104 @@ pub fn run(ctx: &Ctx) -> Report {
     });
     rep.merge(r);
 
+    // ---- a shim that implements only the required methods: the trait's defaults are in force (no
+    //      TLS offered, every login accepted). The greeting must not advertise TLS, any user gets OK
+    //      with the next id and the commands behind it are served; a TLS request is refused.
+    let n = if ctx.miri { 2 } else { ctx.n(600, 20_000) };
+    let r = par_cases(ctx, "C11", "trait-defaults", n, |rng, i, rep| {
+        let (hs, hs_class) = random_handshake(rng);
+        let ssl = i % 6 == 5;
+        let depth = (i % 4) as usize;
+        let mut cmds = Vec::new();
+        let mut scripts = Vec::new();
+        for k in 0..depth {
+            if k == 1 {
+                cmds.push(Cmd::init_db(b"somedb"));
+            } else {
+                cmds.push(Cmd::query(format!("q{}", k).as_bytes()));
+                scripts.push(Script::Q(QProg::completed(k as u64, 0)));
+            }
+        }
+        let mut case = Case::new(cmds, scripts);
+        case.minimal_shim = true;
+        case.handshake = if ssl { wire::ssl_request(0x003f_a685, 1 << 24, 0x21) } else { hs };
+        case.hs_seq = if rng.chance(1, 5) { rng.below(256) as u8 } else { 1 };
+        let obs = run_case(&case);
+        rep.evaluations += 1;
+        if harness_panic(&obs, rep) {
+            return;
+        }
+        rep.counters.class(format!("trait defaults: {} depth={}", if ssl { "SSLRequest".to_string() } else { hs_class.clone() }, depth));
+        let d = || J::obj().set("shim", "required methods only (trait defaults)").set("handshake", if ssl { "SSLRequest".to_string() } else { hs_class.clone() }).set("handshake_id", case.hs_seq).set("pipelined_commands", depth).set("outcome", obs.outcome.describe());
+        if i < 1 {
+            rep.sample(d());
+        }
+        let mut fail = |sig: &str, what: String, rep: &mut Report| rep.violations.push(viol("C11", format!("C11 defaults:{}", sig), what, d()));
+        if let Outcome::Panic { file, line, msg } = &obs.outcome {
+            fail(&panic_signature(file, *line, msg), format!("run_on panicked: {}", obs.outcome.describe()), rep);
+            return;
+        }
+        let out = obs.output();
+        let (pkts, _) = wire::packets_prefix(&out);
+        let (msgs, _) = wire::messages_prefix(&out, &pkts);
+        match msgs.first().map(|g| wire::parse_greeting(&g.payload)) {
+            Some(Ok(g)) => {
+                if g.caps & CLIENT_SSL != 0 {
+                    fail("greeting-ssl-bit", "the greeting advertises CLIENT_SSL although the shim offers no TLS configuration".into(), rep);
+                    return;
+                }
+                if g.caps & CLIENT_PROTOCOL_41 == 0 || g.protocol != 10 {
+                    fail("greeting", format!("protocol {} capabilities 0x{:08x}", g.protocol, g.caps), rep);
+                    return;
+                }
+            }
+            other => {
+                fail("no-greeting", format!("{:?}", other.map(|r| r.err())), rep);
+                return;
+            }
+        }
+        let commands = obs.log.cbs.iter().filter(|c| !matches!(c.kind, CbKind::Auth { .. })).count();
+        if ssl {
+            if !obs.outcome.is_err() || commands != 0 || msgs.len() > 1 && msgs[1].payload.first() == Some(&0) {
+                fail("ssl-request-not-refused", format!("TLS requested from a shim without TLS: run_on returned {}, {} commands served", obs.outcome.describe(), commands), rep);
+            } else {
+                rep.counters.inc("ssl_refusals_checked");
+            }
+            return;
+        }
+        let want_seq = case.hs_seq.wrapping_add(1);
+        match msgs.get(1).map(|m| (m.seq_first, wire::parse_ok(&m.payload).is_ok() && m.payload.first() == Some(&0))) {
+            Some((seq, true)) if seq == want_seq => {}
+            other => {
+                fail("accept-reply", format!("login under the default after_authentication answered by {:?}, expected OK with id {}", other, want_seq), rep);
+                return;
+            }
+        }
+        if obs.outcome != Outcome::Ok {
+            fail("run_on-not-ok", format!("run_on returned {}", obs.outcome.describe()), rep);
+            return;
+        }
+        let want_cbs = case.cmds.iter().filter(|c| matches!(c.kind, Kind::Query)).count();
+        let dec = wire::decode_all(&obs.kinds, &msgs);
+        if commands != want_cbs || dec.stop.is_some() || dec.used != msgs.len() {
+            fail("pipelined-commands", format!("{} command callbacks for {} queries; responses decode: {:?}", commands, want_cbs, dec.stop), rep);
+            return;
+        }
+        // the default on_init answers OK
+        for (k, c) in case.cmds.iter().enumerate() {
+            if c.kind == Kind::InitDb && !matches!(dec.resps.get(2 + k), Some(Resp::Simple(Part::Ok(_)))) {
+                fail("default-on-init", format!("COM_INIT_DB under the default on_init answered by {:?}", dec.resps.get(2 + k)), rep);
+                return;
+            }
+        }
+        rep.counters.inc("accepts");
+        rep.counters.inc("accepts_under_trait_defaults");
+    });
+    rep.merge(r);
+    if ctx.strict() {
+        rep.require("accepts_under_trait_defaults", 100);
+    }
+
     // ---- the same clauses when the client takes the TLS upgrade the greeting offers: SSLRequests
     //      and inner handshake responses of every legal shape (capability masks, max-packet,
     //      charset, MariaDB-style extended capabilities in the reserved bytes), accept and reject
